@@ -429,6 +429,20 @@ def model_export_to_file(f, model=None, repo=None):
     f.write(HEADER)
 
     def _export(obj):
+        # The objects are visited depth-first without recursion. A model may
+        # link more objects in a chain than the interpreter allows nested calls.
+        pending = [_export_obj(obj)]
+        while pending:
+            try:
+                pending.append(_export_obj(next(pending[-1])))
+            except StopIteration:
+                pending.pop()
+
+    def _export_obj(obj):
+        """
+        Writes the given object. Yields each linked object at the point where
+        it should be written.
+        """
         if obj is None or id(obj) in processed_set or type(obj) in PRIMITIVE_PYTHON_TYPES:
             return
 
@@ -464,7 +478,7 @@ def model_export_to_file(f, model=None, repo=None):
                                         f"{id(obj)} -> {id(list_obj)} "
                                         f'[label="{attr_name}:{idx}" {endmark}]\n'
                                     )
-                                    _export(list_obj)
+                                    yield list_obj
                 else:
                     # Plain attributes
                     if isinstance(attr_value, str) and attr_name != "name":
@@ -489,7 +503,7 @@ def model_export_to_file(f, model=None, repo=None):
                                 f"{id(obj)} -> {id(attr_value)} "
                                 f'[label="{attr_name}" {endmark}]\n'
                             )
-                            _export(attr_value)
+                            yield attr_value
 
         name = f"{name}:{obj_cls.__name__}"
 
